@@ -16,7 +16,9 @@ fn main() {
         prop, env.tier, env.seed, env.threads
     );
     let code = match prop.as_str() {
+        "C07" => props::c07::run(&env),
         "C11" => props::c11::run(&env),
+        "C16" => props::c16::run(&env),
         "C20" => props::c20::run(&env),
         _ => {
             eprintln!("unknown property {prop}");
